@@ -718,6 +718,13 @@ impl Div for Number {
     }
 }
 
+/// The exact quotient of two integers that both fit 32 bits, if it can be
+/// carried as a Rational32. Rational32::new overflows while normalising
+/// i32::MIN over a negative denominator; checked_div does not.
+fn ratio_of(numer: Option<i32>, denom: Option<i32>) -> Option<Rational32> {
+    Rational32::from_integer(numer?).checked_div(&Rational32::from_integer(denom?))
+}
+
 impl Div for &Number {
     type Output = Number;
 
@@ -725,17 +732,15 @@ impl Div for &Number {
         match self {
             Number::Fixnum(lhs) => match rhs {
                 Number::Fixnum(rhs) => {
-                    if lhs.to_i32().is_some() && rhs.to_i32().is_some() {
-                        Rational32::new(*lhs as i32, *rhs as i32).into()
-                    } else {
-                        (*lhs as f64 / *rhs as f64).into()
+                    match ratio_of(lhs.to_i32(), rhs.to_i32()) {
+                        Some(num) => num.into(),
+                        None => (*lhs as f64 / *rhs as f64).into(),
                     }
                 }
                 Number::BigInt(rhs) => {
-                    if lhs.to_i32().is_some() && rhs.to_i32().is_some() {
-                        Rational32::new(*lhs as i32, rhs.to_i32().unwrap()).into()
-                    } else {
-                        (*lhs as f64 / rhs.to_f64().unwrap_or(f64::NAN)).into()
+                    match ratio_of(lhs.to_i32(), rhs.to_i32()) {
+                        Some(num) => num.into(),
+                        None => (*lhs as f64 / rhs.to_f64().unwrap_or(f64::NAN)).into(),
                     }
                 }
                 Number::Float(rhs) => (*lhs as f64 / rhs).into(),
@@ -752,17 +757,17 @@ impl Div for &Number {
             },
             Number::BigInt(lhs) => match rhs {
                 Number::Fixnum(rhs) => {
-                    if lhs.to_i32().is_some() && rhs.to_i32().is_some() {
-                        (Rational32::new(lhs.to_i32().unwrap(), *rhs as i32)).into()
-                    } else {
-                        (lhs.to_f64().unwrap_or(f64::NAN) / *rhs as f64).into()
+                    match ratio_of(lhs.to_i32(), rhs.to_i32()) {
+                        Some(num) => num.into(),
+                        None => (lhs.to_f64().unwrap_or(f64::NAN) / *rhs as f64).into(),
                     }
                 }
                 Number::BigInt(rhs) => {
-                    if lhs.to_i32().is_some() && rhs.to_i32().is_some() {
-                        (Rational32::new(lhs.to_i32().unwrap(), rhs.to_i32().unwrap())).into()
-                    } else {
-                        (lhs.to_f64().unwrap_or(f64::NAN) / rhs.to_f64().unwrap_or(f64::NAN)).into()
+                    match ratio_of(lhs.to_i32(), rhs.to_i32()) {
+                        Some(num) => num.into(),
+                        None => {
+                            (lhs.to_f64().unwrap_or(f64::NAN) / rhs.to_f64().unwrap_or(f64::NAN)).into()
+                        }
                     }
                 }
                 Number::Float(rhs) => (lhs.to_f64().unwrap() / *rhs).into(),
